@@ -127,4 +127,40 @@ PROPS = {
         "level_text": "Machine-checked Lean 4 theorems: retain with an arbitrary stateful predicate (the answer of its k-th call) removes exactly the idle objects answered `false`, keeps the rest in order, reports accurate counts, detaches each removed object once and touches neither checked-out objects nor the semaphore nor max_size (C09_retain_exact, C09_retain_partition); Object::take hands the value over, shrinks size and users by one and returns one token (C09_take); in EVERY reachable state (all histories incl. resize, close, cancellations, panics; any thread-level interleaving of the atomic steps) the number of detach calls for an object id equals the number of times it left the pool, which is at most once, it is zero for every object still idle / checked out / in an operation's hands, no object is in two places (C09_detach_exactly_once from the counting invariant Conserve), and a gone object never reappears in any continuation (C09_gone_is_gone). Tied to the code by the correspondence run (events: every detach / destroy / taken / pred / retained with object ids and metrics) and a ground-truth monitor over destructor and detach logs.",
         "level_note": "Panicking predicates / detach are outside the quantifier (they run under the mutex and poison it). The shrink/close path of the pinned tree dropped idle objects without detach; repaired (fix: 995d67d) and covered by corpus/C09. Axioms: propext, Classical.choice, Quot.sound only.",
     },
+    "C07": {
+        "title": "resize() makes the new limit effective in both directions",
+        "modules": ["DeadpoolVerif.Props.C07"],
+        "theorems": [
+            "DeadpoolVerif.C07_live_le_max_plus_debt_partial", "DeadpoolVerif.C07_effective_when_collected_partial",
+            "DeadpoolVerif.C07_max_size_set", "DeadpoolVerif.C07_shrink_iteration", "DeadpoolVerif.C07_grow_exact",
+            "DeadpoolVerif.C07_capacity_at_rest_partial",
+            "DeadpoolVerif.C07_witness_a", "DeadpoolVerif.C07_witness_b", "DeadpoolVerif.C07_full_is_false",
+            "DeadpoolVerif.run_acct", "DeadpoolVerif.run_link",
+        ],
+        "projection": BASE + SEM + CNT + ["idle", "out", "live", "ev"],
+        "profiles": {"quick": [("resize", 900), ("retain", 200)],
+                     "thorough": [("resize", 20000), ("retain", 4000), ("cancel", 4000)]},
+        "monitor": "C07",
+        "design_ref": "DESIGN.md §6 C07",
+        "level_text": "The pinned code violates C07 (genuine defect, known finding `shrink-undercollect`, not repaired because the repair is a ~50-line rewrite of resize/return paths). Machine-checked Lean 4: the negation of the full-strength statement with two concrete histories (C07_witness_a/b, C07_full_is_false; the same histories are replayed on the real code on every run), and the part that holds for EVERY reachable state: live + being-created <= max_size + debt where the ghost `debt` is exactly the capacity a shrink could not collect (C07_live_le_max_plus_debt_partial), hence the limit is effective whenever debt = 0 (C07_effective_when_collected_partial); max_size is the target once the resize holds the mutex; each shrink iteration releases and detaches one idle object per free token; growing by k hands exactly k tokens, waiters first (C07_grow_exact); at rest capacity = max_size + debt (C07_capacity_at_rest_partial). The check reports KNOWN-FINDING only for violations that the model reproduces step by step with debt > 0 at the violating step; any other C07 violation (e.g. wrong grow amount, admission over the limit with debt = 0, a divergence from the model) is a VIOLATION.",
+        "level_note": "Known finding, see known_findings.txt. Axioms: propext, Classical.choice, Quot.sound only.",
+    },
+    "C06": {
+        "title": "close() is prompt, final and leaves nothing behind",
+        "modules": ["DeadpoolVerif.Props.C06"],
+        "theorems": [
+            "DeadpoolVerif.C06_closed_forever", "DeadpoolVerif.C06_get_after_close_fails",
+            "DeadpoolVerif.C06_close_wakes_all", "DeadpoolVerif.C06_resize_noop_after_close",
+            "DeadpoolVerif.C06_return_after_close_discards", "DeadpoolVerif.C06_no_idle_after_close_partial",
+            "DeadpoolVerif.C06_witness_idle_retained", "DeadpoolVerif.C06_witness_max_size",
+            "DeadpoolVerif.run_acct", "DeadpoolVerif.run_link",
+        ],
+        "projection": BASE + SEM + CNT + ["idle", "out", "live", "ev"],
+        "profiles": {"quick": [("close", 1000), ("cancel", 200)],
+                     "thorough": [("close", 25000), ("cancel", 5000), ("resize", 3000)]},
+        "monitor": "C06",
+        "design_ref": "DESIGN.md §6 C06",
+        "level_text": "Machine-checked Lean 4 theorems for every reachable state / every continuation: once closed always closed (C06_closed_forever); on a closed pool every acquisition step of get - blocking, timed, non-blocking, fresh, waiting, re-polled, at its deadline - ends in Closed and never obtains a slot (C06_get_after_close_fails); close empties the wait queue, i.e. wakes every waiter, which then completes with Closed (C06_close_wakes_all + C02_woken_completes); resize on a closed pool changes nothing; an object returned once max_size = 0 is discarded (detached, destroyed), not queued; a closed pool at rest whose shrink collected everything holds no object (C06_no_idle_after_close_partial). Two clauses are violated by the pinned code in rare thread-level interleavings (known findings `close-retains-idle`, `resize-races-close`): proved as witnesses (C06_witness_idle_retained, C06_witness_max_size), the first replayed on the real code on every run. Objects outliving every pool handle: Weak upgrade fails, return/take touch nothing of the pool (harness scenario, not modelled).",
+        "level_note": "Known findings, see known_findings.txt; only violations that the model reproduces with the documented mechanism are attributed to them. Axioms: propext, Classical.choice, Quot.sound only.",
+    },
 }
